@@ -9,7 +9,7 @@ import enum
 import inspect
 import itertools
 import json
-from typing import Any, Dict, List, Optional
+from typing import Annotated, Any, Dict, List, Optional
 
 import jsonschema
 import pydantic
@@ -41,12 +41,14 @@ class Point(pydantic.BaseModel):
 
 
 ANNOTATIONS = {
+    'posint': Annotated[int, pydantic.Field(gt=0, le=100)], 'shortstr': Annotated[str, pydantic.Field(max_length=3)],
     'int': int, 'str': str, 'float': float, 'bool': bool, 'optint': Optional[int], 'listint': List[int],
     'dictint': Dict[str, int], 'any': Any, 'point': Point, 'color': Color,
 }
-ANN_SRC = {'int': 'int', 'str': 'str', 'float': 'float', 'bool': 'bool', 'optint': 'Optional[int]', 'listint': 'List[int]',
+ANN_SRC = {'posint': 'Annotated[int, Field(gt=0, le=100)]', 'shortstr': 'Annotated[str, Field(max_length=3)]', 'int': 'int', 'str': 'str', 'float': 'float', 'bool': 'bool', 'optint': 'Optional[int]', 'listint': 'List[int]',
            'dictint': 'Dict[str, int]', 'any': 'Any', 'point': 'Point', 'color': 'Color'}
 VALUES = {
+    'posint': [5, 100, 0, -1, 101, '7', 'x', None], 'shortstr': ['abc', '', 'abcd', 1, None],
     'int': [1, 0, -5, '1', '7', 1.0, 1.5, 'x', None, True, [1], {}],
     'str': ['s', '', 1, None, ['s'], True],
     'float': [1.5, 1, '2.5', 'x', None, True],
@@ -114,7 +116,7 @@ def make_function(key, params, is_async, view=False):
             star = True
         parts.append(f'{p["n"]}{ann}{d}')
     recv = '{' + ', '.join([f'{p["n"]!r}: {p["n"]}' for p in params] + (["'<self.context>': _ctx_mark(self.context)"] if view else [])) + '}'
-    ns = {'_perform': S._perform, '_ctx_mark': S.ctx_mark, 'Optional': Optional, 'List': List, 'Dict': Dict, 'Any': Any, 'Point': Point, 'Color': Color}
+    ns = {'_perform': S._perform, '_ctx_mark': S.ctx_mark, 'Annotated': Annotated, 'Field': pydantic.Field, 'Optional': Optional, 'List': List, 'Dict': Dict, 'Any': Any, 'Point': Point, 'Color': Color}
     src = f'{"async " if is_async else ""}def f({", ".join(parts)}):\n    return _perform({key!r}, {recv})\n'
     exec(compile(src, '<generated method>', 'exec', dont_inherit=True), ns)      # no `from __future__ import annotations`
     _FUNCS[ck] = ns['f']
